@@ -120,6 +120,9 @@ def run(R, job):
 
     def dep():
         counter[0] += 1
+        if r.random() < 0.3:
+            # distinct dependencies may share a name (different versions): every metadata node must be carried, not one per name
+            return core.HTMLDependency("shared", "1.%d" % counter[0])
         return core.HTMLDependency("d%d" % counter[0], "1.0")
 
     def scalar():
@@ -181,7 +184,7 @@ def run(R, job):
     def metas(x, acc):
         "every metadata node the statement lists"
         if isinstance(x, core.MetadataNode):
-            acc.append(x.name)
+            acc.append(x.name + "@" + str(x.version))
         elif isinstance(x, Tg):
             metas(x.tagify(), acc)
         elif isinstance(x, _jsx.JSXTag):
@@ -262,7 +265,8 @@ def run(R, job):
         if not (isinstance(t1, core.Tag) and t1.name == "script"):
             fails.append({"input": repr(before)[:300], "observed": repr(t1)[:100], "expected": "one <script> element"})
             continue
-        got_deps = [d.name for d in t1.get_dependencies(dedup=False)]
+        got_deps = [d.name + "@" + str(d.version) for d in t1.get_dependencies(dedup=False)]
+        got_deps = [g.split("@")[0] if g.startswith("react") else g for g in got_deps]
         want = ["react", "react-dom"] + metas(x, [])
         nontrivial += len(want) > 2
         if got_deps[:2] != ["react", "react-dom"] or sorted(got_deps) != sorted(want):
@@ -289,8 +293,9 @@ def run(R, job):
         if len(fails) >= 3:
             break
     # (d) allow-list
-    Comp = _jsx.jsx_tag_create("Comp", allowedProps=["a", "b_c"])
-    for props, ok in (({"a": 1}, True), ({"b_c": 1}, True), ({"z": 1}, False), ({"a": 1, "q": 2}, False), ({}, True)):
+    Comp = _jsx.jsx_tag_create("Comp", allowedProps=["alpha", "b_c", "onChange"])
+    for props, ok in (({"alpha": 1}, True), ({"b_c": 1}, True), ({"z": 1}, False), ({"alpha": 1, "q": 2}, False), ({}, True), ({"a": 1}, False), ({"al": 1}, False),
+                      ({"Change": 1}, False), ({"on": 1}, False), ({"c": 1}, False), ({"b": 1}, False), ({"alpha, b_c": 1}, False)):
         checked += 1
         try:
             Comp(**props)
@@ -300,7 +305,7 @@ def run(R, job):
         except Exception as ex:
             rej = "other " + type(ex).__name__
         if rej is not (not ok):
-            fails.append({"input": f"allowedProps=['a','b_c'], props={props}", "observed": f"rejected={rej}", "expected": f"rejected={not ok}"})
+            fails.append({"input": f"allowedProps=['alpha','b_c','onChange'], props={props}", "observed": f"rejected={rej}", "expected": f"rejected={not ok}"})
     try:
         _jsx.JSXTag("lower")
         fails.append({"input": "JSXTag('lower')", "observed": "accepted", "expected": "NotImplementedError (component names start with a capital letter)"})
